@@ -9,6 +9,7 @@ import (
 	"crypto/ecdsa"
 	"crypto/elliptic"
 	"encoding/asn1"
+	"encoding/json"
 	"errors"
 	"io"
 	"os"
@@ -329,4 +330,41 @@ func encodedAndDropped(v int, w io.Writer) error {
 // LINT-CONSTSLICE
 func sliceBeyondUnknownLength(h []byte) []byte {
 	return h[:8]
+}
+
+// LINT-OPTEMPTY: the defensive copy makes a list that is never nil, so the optional reference is always encoded.
+type optRef struct {
+	Org     string `asn1:"optional"`
+	Numbers []int
+}
+
+type optNotice struct {
+	Ref  optRef `asn1:"optional"`
+	Text string `asn1:"optional,utf8"`
+}
+
+func optionalGetsEmptyList(numbers []int, text string) optNotice {
+	cp := make([]int, len(numbers))
+	copy(cp, numbers)
+	return optNotice{Ref: optRef{Numbers: cp}, Text: text}
+}
+
+// DECODE-DIRECT: the document goes through a generic map first, numbers become float64.
+type decodedDoc struct {
+	Serial uint64 `json:"serial"`
+}
+
+func decodeThroughGenericMap(doc []byte) (decodedDoc, error) {
+	var generic map[string]any
+	var out decodedDoc
+	if err := json.Unmarshal(doc, &generic); err != nil {
+		return out, err
+	}
+	delete(generic, "$schema")
+	again, err := json.Marshal(generic)
+	if err != nil {
+		return out, err
+	}
+	err = json.Unmarshal(again, &out)
+	return out, err
 }
